@@ -78,7 +78,7 @@ def header_families(P, G, tier, scale=0, **kw):
     return J
 
 
-def neighbourhood_families(P, G, tier, **kw):
+def neighbourhood_families(P, G, tier, default_flags=False, **kw):
     """short symbolic windows at the places where the header options act (before/after the colon, value start and end, line
     start, fold points), inside otherwise concrete messages, with the header options symbolic"""
     J = []
@@ -96,8 +96,9 @@ def neighbourhood_families(P, G, tier, **kw):
           ('third-colon', 'resp', RESP_LINE + b'A: b\r\nCc: d\r\nNa', b'v\r\n\r\n', RESP_HDR_SYM), ('third-value-start', 'req', REQ_LINE + b'A: b\r\nCc: d\r\nN:', b'v\r\n\r\n', REQ_HDR_SYM),
           ('third-value-end', 'resp', RESP_LINE + b'A: b\r\nCc: d\r\nN:v', b'\r\n\r\n', RESP_HDR_SYM), ('third-line-start', 'resp', RESP_LINE + b'A: b\r\nCc: d\r\n', b'N:v\r\n\r\n', RESP_HDR_SYM)]
     for nm, kind, pre, suf, fl in tm:
+        if default_flags: fl = F0
         J += deepen(P, G, 'nb-' + nm, lambda n, kind=kind, pre=pre, suf=suf, fl=fl, nm=nm: sc(kind, n, prefix=pre, suffix=suf, api='cfg', fl=fl, cap=(4 if nm.startswith('third') else 2)),
-                    range(1, top + 1), bud, f'{kind} {pre!r} + ' + '{n} symbolic bytes + ' + f'{suf!r}, header options symbolic', 3, **kw)
+                    range(1, top + 1), bud, f'{kind} {pre!r} + ' + '{n} symbolic bytes + ' + f'{suf!r}' + ('' if default_flags else ', header options symbolic'), 3, **kw)
     return J
 
 
